@@ -21,6 +21,69 @@ CHECKS = {
              'the server cannot encode is a violation keyed by (operation, exception class, innermost '
              'kmip frame). Held = none beyond the listed known findings on the executions of the run.',
         design='DESIGN.md section 3 C13'),
+
+    'C03': dict(
+        category='exploration',
+        technique='runtime monitoring: one-directional reference decision table (kv/model.py) vs observed '
+                  'responses; never-issued-identifier twin for the denial text; canary scan of response '
+                  'bytes; raw SQLite dump frame condition; Locate subset check; owner-column invariant',
+        text='Generated policies (preset/groups/both/neither with missing entries) and built-ins, objects of '
+             'all seven types carrying canaries, every identity class x object x 17 addressing probes '
+             '(incl. wrapping key, DeriveKey base) after random multi-client history steps. A request the '
+             'table does not grant must fail exactly like the same request naming a never-issued identifier, '
+             'leave the raw store unchanged and leak no canary; Locate must list only locatable objects; the '
+             'owner column never changes. Over-denial is not a C03 violation (the property is "only if").',
+        design='DESIGN.md section 3 C03'),
+    'C04': dict(
+        category='exploration',
+        technique='runtime monitoring: exhaustive closure of the reachable object-state graph per (kind, '
+                  'usage mask) with every operation symbol executed at every state, checked against the '
+                  'lifecycle relation and the use gate; random multi-object histories with a bystander invariant',
+        text='For 25 (object kind, mask) variants the check closes the graph of reachable object states '
+             '(State, names, groups, existence) by breadth-first search on database copies and executes all '
+             '23 operation symbols (Activate, Revoke x 7 reason codes, Destroy, the crypto uses, wrap, derive, '
+             'attribute operations, reads) at every reached state; each observed (before, operation, after, '
+             'outcome) is checked against the allowed transition relation, the Active/kind/mask gate and '
+             '"Destroy refused while Active". Random sequences over 8 objects and 2 clients add the '
+             'only-the-target-changes invariant.',
+        design='DESIGN.md section 3 C04'),
+    'C08': dict(
+        category='exploration',
+        technique='runtime monitoring: structural response oracle + twin execution of the batch without its '
+                  'failing items on a copy of the database; raw-dump comparison for unreported effects',
+        text='Batches of 1-6 items from a menu of succeeding and deliberately failing operations, ids '
+             'present/absent/partially absent/duplicated, STOP/CONTINUE/UNDO, batch order flag, all versions. '
+             'Checked: one result per processed item in order with operation and id echoed, stop/continue, '
+             'placeholder addressing, equality of surviving items and of the final store with the twin run, '
+             'and that a request-level error never hides committed effects.',
+        design='DESIGN.md section 3 C08'),
+    'C11': dict(
+        category='exploration',
+        technique='runtime monitoring: differential twin - the probe request on the long-lived engine vs on a '
+                  'fresh engine over a byte copy of the same database under the same virtual clock',
+        text='Prefix histories ending in 17 kinds of request (creating operations, failures, each version, '
+             'request-level errors) followed by 23 probe kinds (identifier-less operations, version-dependent '
+             'attribute rules, reads) as the same or another identity and version; normalised responses and '
+             'post-probe raw dumps must be equal.',
+        design='DESIGN.md section 3 C11'),
+    'C14': dict(
+        category='exploration',
+        technique='runtime monitoring: shadow-store reference model of Locate (access table x filter '
+                  'semantics) compared with observed results; page tiling against the unpaged answer',
+        text='Stores of 0-30 mixed objects with equal and distinct initial dates; each of the 13 filter '
+             'attributes alone and in conjunctions of 2-4, values taken from stored objects and at random, '
+             'all requester classes and versions; result set, order (dates non-increasing), no duplicates, '
+             'and page(offset, maximum) == full[offset:offset+maximum].',
+        design='DESIGN.md section 3 C14'),
+    'C15': dict(
+        category='exploration',
+        technique='runtime monitoring: before/after snapshots (GetAttributes as owner + raw tables) around '
+                  'every Set/Modify/DeleteAttribute call; frozen-attribute invariant, single-permitted-diff '
+                  'model, no-change-on-failure',
+        text='Sequences of attribute operations in 1.x index form and 2.0 current/new/reference form over '
+             'every attribute name plus custom names, index absent/0/in range/out of range/negative, all '
+             'seven object types, interleaved with other operations.',
+        design='DESIGN.md section 3 C15'),
 }
 
 NOT_YET = {}
